@@ -14,6 +14,10 @@ def _gen_static(outdir):
 reg(Prop(
     'C02',
     [Harness('c02_peg', parts=16, slices=11, thorough_cfg='asan1'),
+     # thorough only: the quick workload without sanitizer instrumentation under valgrind memcheck (libstdc++.so -
+     # iostream, locale, codecvt, the extern-template std::string members - is not ASan-instrumented)
+     Harness('c02_peg_memcheck', src=['c02_peg.cpp'], cfg='plain', runner='valgrind', tiers=('thorough',), parts=16,
+             slices=11, run_tier='quick', alarm=900),
      # naturally typed grammars (compile-time result plumbing); -g1: line tables only, the TUs are template heavy
      Harness('c02_static', parts=16, gen=_gen_static, extra_flags='-g1')],
     rule='A case is one seeded random well-formed grammar (1-2 mutually recursive rules, depth <= 4 quick / 5 thorough, built at run time '
